@@ -400,6 +400,27 @@ func runC16(w *fw.W) {
 	single := func(int) string { return "\n" }
 	baseWhole := c16render(whole, single)
 
+	// (1z) the three line-break spellings (LF, CR LF, lone CR), bare and after comments, in every break place
+	runBatch("line-break spellings", func(vs *violSet, dk map[string]struct{}, counters map[string]int, sample *string) {
+		want, e := c16parseStr(baseWhole, nil)
+		if e != "" {
+			vs.add("C16|base-does-not-parse", e, baseWhole)
+			return
+		}
+		for _, brk := range []string{"\r", "\r\n"} {
+			for name, pad := range map[string]string{"bare": brk, "trailing comment": " # c |.x \"" + brk, "comment line": brk + "# c }" + brk, "blank and comment lines": brk + brk + "\t# c" + brk + "  " + brk} {
+				v := c16render(whole, func(int) string { return pad })
+				got, e := c16parseStr(v, nil)
+				counters["padding_variants"]++
+				if got != want {
+					vs.add(fmt.Sprintf("C16|line-break-spelling|%q|%s", brk, name), fmt.Sprintf("every break written as %q (%s): %s", pad, name, orDiff(e, got, want)), map[string]any{"break": brk, "pad": name})
+				}
+				dk[fmt.Sprintf("eol|%q|%s", brk, name)] = struct{}{}
+			}
+		}
+		*sample = "kit program with every break written as CR / CR LF (bare, after comments): same parse as with LF"
+	})
+
 	// (1a) one site at a time in the whole-kit program
 	nsites := c16sites(whole)
 	for _, kind := range c16padKinds {
